@@ -858,9 +858,9 @@ def gen_scpi(rng, big: bool) -> dict:
                 "sloppy": int(rng.random() < 0.35), "rx": hx(stale), "pending": hx(pending)}
     # binary blocks
     sizes = [0, 1, 2, 3, 8, 9, 10, 11, 12, 98, 99, 100, 101, 999, 1000, 1001]
-    if big:
-        sizes += [9999, 10000, 10001, 99999, 100000]
     n = rng.choice(sizes) if rng.random() < 0.5 else rng.randint(0, 40)
+    if big and rng.random() < 0.003:
+        n = rng.choice([9999, 10000, 10001, 99999, 100000])
     d = _bytes(rng, n, b"#\n\r0123456789\x00\xff" + brt)
     digits = None if rng.random() < 0.7 else rng.randint(1, 9)
     blk = ref_block_encode(d, digits)
